@@ -407,6 +407,7 @@ func (m *Meta) AlterRename(table string, from, to []string) *Meta {
 		}
 		ix.Columns = cols
 		ix.BestKey = replace(ix.BestKey, from, to)
+		ix.Fields = replace(ix.Fields, from, to)
 		// Update Fk.Columns for recursive foreign keys (table references itself)
 		// because Fk.Columns contains target column names which are in this table
 		if len(ix.Fk.Columns) > 0 && ix.Fk.Table == table {
